@@ -144,14 +144,33 @@ def check(run):
                             hist["shift_changed_between_states"] = hist.get("shift_changed_between_states", 0) + 1
         if bad is None and rng.random() < 0.25:
             d = 0.001
-            cp = float(m.calculate_heat_capacity())
-            lo = mpc.mixture.LTE(sps, x0, T * (1 - d), P, *solver.DEFAULT_CONTROLS)
-            hi = mpc.mixture.LTE(sps, x0, T * (1 + d), P, *solver.DEFAULT_CONTROLS)
             import warnings
-            with warnings.catch_warnings():
-                warnings.simplefilter("ignore")
-                exp = (float(hi.calculate_enthalpy()) - float(lo.calculate_enthalpy())) / (2 * d * T)
-            if math.isfinite(exp) and common.relerr(cp, exp) > TOL_V:
+            with warnings.catch_warnings(record=True) as wcp:
+                warnings.simplefilter("always")
+                try:
+                    cp = float(m.calculate_heat_capacity())
+                except Exception:  # noqa: BLE001
+                    # an exception after the solver announced non-convergence at a perturbed temperature is an announced failure (C06), not a formula defect
+                    if not any("Minimiser could not find" in str(x.message) for x in wcp):
+                        raise
+                    cp = float("nan")
+            if any("Minimiser could not find" in str(x.message) for x in wcp):
+                hist["heat_capacity_solver_warned"] = hist.get("heat_capacity_solver_warned", 0) + 1
+                cp = float("nan")
+            exp = float("nan")
+            if math.isfinite(cp):
+                lo = mpc.mixture.LTE(sps, x0, T * (1 - d), P, *solver.DEFAULT_CONTROLS)
+                hi = mpc.mixture.LTE(sps, x0, T * (1 + d), P, *solver.DEFAULT_CONTROLS)
+                with warnings.catch_warnings(record=True) as wex:
+                    warnings.simplefilter("always")
+                    try:
+                        exp = (float(hi.calculate_enthalpy()) - float(lo.calculate_enthalpy())) / (2 * d * T)
+                    except Exception:  # noqa: BLE001
+                        if not any("Minimiser could not find" in str(x.message) for x in wex):
+                            raise
+                    if any("Minimiser could not find" in str(x.message) for x in wex):
+                        exp = float("nan")
+            if math.isfinite(exp) and math.isfinite(cp) and common.relerr(cp, exp) > TOL_V:
                 bad = ("heat capacity != centred temperature difference of the enthalpy", cp, exp)
             if m.T != T:
                 bad = ("calculate_heat_capacity did not restore T", m.T, T)
